@@ -247,6 +247,8 @@ def to_skeleton(I, obj, sort_keys, allow_nan=True):
     if isinstance(obj, dict):
         items = []
         for k, v in obj.items():
+            if isinstance(k, models.SymKey):
+                I.unsupported("JSON object with a symbolic key")
             if isinstance(k, str):
                 kk = k
             elif isinstance(k, bool):
